@@ -384,6 +384,10 @@ fn big_strategy() -> BoxedStrategy<BigCase> {
 
 fn big_dims(c: &BigCase) -> (usize, usize, usize) {
     const ROWS: [usize; 15] = [255, 256, 257, 1023, 1024, 1025, 2047, 2048, 2049, 4095, 4096, 4097, 8192, 65535, 65536];
+    // one case in sixteen: very many samples (on and next to 2^16) and a few rows
+    if c.stride % 16 == 5 {
+        return (if c.wide { 35 } else { 17 }, [65_535usize, 65_536, 65_537, 70_001][c.n_sel as usize % 4], 12 + c.rows_sel as usize % 30);
+    }
     let rows = ROWS[crate::gen::idx(c.rows_sel, ROWS.len())];
     // the largest tables only with few samples (cost)
     let n = if rows >= 8192 { [8usize, 9, 15, 16, 17][c.n_sel as usize % 5] } else if c.n_sel % 2 == 0 { BOUNDARY_SAMPLES[crate::gen::idx(c.n_sel, BOUNDARY_SAMPLES.len())] } else { 2 + crate::gen::idx(c.n_sel, 129) };
@@ -430,12 +434,13 @@ fn check_big(c: &BigCase, ctx: &Ctx) -> Outcome {
             if n % 8 != 0 { cl.push("samples_not_multiple_of_8"); }
             if rows % 1024 == 0 || rows % 256 == 0 { cl.push("rows_on_block_size"); }
             if c.via_cli { cl.push("cli"); }
+            if n >= 65_535 { cl.push(">=65535_samples"); }
             pass((removed > 0 && kept > 0) || masked > 0, key_of(&(k, n, rows, c.salt, c.pgap, c.pamb, &c.flags, c.via_cli)), cl)
         }
     }
 }
 
-const BIG_RULE: &str = "generated: tables of 2..200 samples (half of them with counts on and next to 8,16,32,64,128) x 255..65536 rows (on and next to 256,1024,2048,4096, also 8192 and 65535/65536 with up to 17 samples; a quarter of the cases unfiltered, so that exactly that many columns are written), k=17 (64-bit) or k=35 (128-bit), written through the public API; rows constant, constant with gaps, constant except for one sample at any column (also the last ones), two alleles split at a column, or random symbols with generated gap / ambiguity-code densities; all filter flags and min-freq selectors of the inproc stage; a quarter of the cases through ska align on the saved file. Oracle: multiset of emitted columns == model filter, names in order. Non-trivial: the filter removes and keeps rows, or masks a symbol.";
+const BIG_RULE: &str = "generated: tables of 2..200 samples (half of them with counts on and next to 8,16,32,64,128) x 255..65536 rows (on and next to 256,1024,2048,4096, also 8192 and 65535/65536 with up to 17 samples; one case in sixteen with 65535, 65536, 65537 or 70001 samples and 12-41 rows; a quarter of the cases unfiltered, so that exactly that many columns are written), k=17 (64-bit) or k=35 (128-bit), written through the public API; rows constant, constant with gaps, constant except for one sample at any column (also the last ones), two alleles split at a column, or random symbols with generated gap / ambiguity-code densities; all filter flags and min-freq selectors of the inproc stage; a quarter of the cases through ska align on the saved file. Oracle: multiset of emitted columns == model filter, names in order. Non-trivial: the filter removes and keeps rows, or masks a symbol.";
 
 const RULE: &str = "generated: arbitrary symbol tables (1-12 samples, 1-60 rows over ACGT, 11 ambiguity codes and '-', per-case densities, constant and constant-plus-gap rows, each row >=1 non-gap) built through the public API; 4 filters x ambig-as-missing x ambig-mask x no-gap-only-sites; min-freq in {0,1,(j-1/2)/n,m/8}; plus a second, stricter setting. Oracle: multiset of emitted columns == model filter (threshold max(1,ceil(f n))), names in order, equal lengths; stricter output is a sub-multiset of the laxer. Non-trivial: the filter removes >=1 row and keeps >=1, or masks >=1 symbol in a kept row; distinct by (flags, table).";
 
